@@ -68,6 +68,15 @@ CHECKS = {
         note='Trusted: gcc 12 ASan/UBSan; leaks not judged; a timeout is re-run alone with 10x the limit before it is called a hang.',
         technique='exhaustive single-mutation and boundary-shape enumeration on sanitizer builds of the real tools',
         ref='3/C06'),
+    'C08': dict(
+        text='Exhaustive program x input enumeration against a legality oracle: 160 (thorough ~250) inheritance graphs of 3-6 entities (stars, chains, two-level trees, '
+             'diamonds, two roots, abstract towers) with every ONEOF/AND/ANDOR constraint tree of depth <= 2 over the direct subtypes, every subset of subtypes left '
+             'unmentioned and +-ABSTRACT, packed 60 per schema library; for each graph ALL 2^n-1 subsets of the entity names in every part order (n<=3; sorted+reversed beyond) '
+             'are offered to the real STEPcomplex constructor on the sanitizer build, and every subset of size >= 2 is also read from a file between two plain instances. '
+             'Oracle (cxref, written from the property text): accepted <=> legal for connected sets, same verdict for every order, refusal confined and reported, no crash.',
+        note='Trusted: vlib/cxref.py. Disconnected sets and one-part "complex" instances are explored for memory safety only.',
+        technique='exhaustive enumeration of small programs x all input subsets on the real code + reference-model (legality) oracle',
+        ref='3/C08'),
     'C09': dict(
         text='Classical exhaustive enumeration at the attribute seam: for each simple kind ALL strings up to length 4-5 (thorough 6-7) over the kind\'s '
              'alphabet plus boundary numerals, each in 6 delimiter contexts, are read by the real STEPattribute::STEPread (1.6 M reads in the quick tier) '
